@@ -1655,6 +1655,40 @@ pub fn spaces(tier: Tier) -> Vec<Space> {
         check_string(acc, case, is_priv, &s, key, json!({"base": base.desc, "kind": kind_name(is_priv), "valid_string": text, "payload_len": len, "filler": fill, "string": s}));
     }));
 
+    // 7b. byte-level extension and truncation of the raw 82 bytes (payload || checksum) of valid strings, re-encoded in
+    //     Base58 WITHOUT touching the checksum bytes: 1..4 bytes appended (00, ff, 01 .. 04), 1..2 zero bytes prepended, the
+    //     last 1..4 bytes dropped, a byte inserted in front of the checksum. A decoder that looks for the checksum at a fixed
+    //     offset, or that tolerates trailing bytes, accepts some of these; the reference accepts none.
+    {
+        let t = tree.clone();
+        let mut transforms: Vec<(String, Box<dyn Fn(&[u8]) -> Vec<u8> + Send + Sync>)> = vec![];
+        for k in 1..=4usize {
+            for fill in [0x00u8, 0xff, 0x01] {
+                transforms.push((format!("append {} x {:02x}", k, fill), Box::new(move |b: &[u8]| [b, &vec![fill; k][..]].concat())));
+            }
+            transforms.push((format!("drop the last {} bytes", k), Box::new(move |b: &[u8]| b[..b.len() - k].to_vec())));
+        }
+        for k in 1..=2usize {
+            transforms.push((format!("prepend {} zero bytes", k), Box::new(move |b: &[u8]| [&vec![0u8; k][..], b].concat())));
+        }
+        for fill in [0x00u8, 0xff] {
+            transforms.push((format!("insert {:02x} in front of the checksum", fill), Box::new(move |b: &[u8]| [&b[..78], &[fill][..], &b[78..]].concat())));
+        }
+        transforms.push(("append the checksum once more".into(), Box::new(|b: &[u8]| [b, &b[78..]].concat())));
+        let nt = transforms.len() as u64;
+        v.push(Space::new("byte-level-extension", nb * 2 * nt, move |case, acc| {
+            let c = coords(case.idx, &[nb, 2, nt]);
+            let base = &t.bases()[c[0] as usize];
+            let is_priv = c[1] == 0;
+            let (text, key) = if is_priv { (&base.xs, &base.x) } else { (&base.ps, &base.p) };
+            let raw = b58::b58_decode(text).unwrap();
+            assert!(raw.len() == 82);
+            let (name, f) = &transforms[c[2] as usize];
+            let s = b58::b58_encode(&f(&raw));
+            check_string(acc, case, is_priv, &s, key, json!({"base": base.desc, "kind": kind_name(is_priv), "valid_string": text, "raw_bytes_transform": name, "string": s}));
+        }));
+    }
+
     // 7a. key material that is not a key, under a VALID checksum (BIP32 test vector 5 classes): xpub key fields that are not
     //     the compressed encoding of a curve point (x not on the curve, x >= p, tags 00 / 04 / 05 / 06 / 07), xprv key fields
     //     with a non-zero pad byte or a scalar outside [1, n-1]
